@@ -2282,7 +2282,12 @@ class Commit(ShaFile):
         if self.encoding:
             headers.append((_ENCODING_HEADER, self.encoding))
         for mergetag in self.mergetag:
-            headers.append((_MERGETAG_HEADER, mergetag.as_raw_string()[:-1]))
+            mergetag_text = mergetag.as_raw_string()
+            # The header value carries the tag without its final newline;
+            # do not cut a byte off a tag text that does not end in one.
+            if mergetag_text.endswith(b"\n"):
+                mergetag_text = mergetag_text[:-1]
+            headers.append((_MERGETAG_HEADER, mergetag_text))
         headers.extend(
             (field, value) for field, value in self._extra if value is not None
         )
